@@ -247,7 +247,7 @@ int main(int argc, char **argv) {
         std::ifstream in(file, std::ios::binary);
         if (!in) { fprintf(stderr, "cannot read %s\n", file.c_str()); return 2; }
         std::vector<uint8_t> b((std::istreambuf_iterator<char>(in)), std::istreambuf_iterator<char>());
-        g_exclude.clear();
+        if (!getenv("VF_REPLAY_KEEP_EXCLUDE")) g_exclude.clear();     // a plain replay shows recorded findings too; the driver's confirmation replays do not count them
         FailInfo fi;
         bool ok = exec_case(b.data(), b.size(), fi);
         if (!g_ctx.verbose) printf("TRACE %s\n", g_ctx.trace.c_str());
